@@ -227,15 +227,15 @@ Definition yrel (y : yexp) (p : ppc) : Prop :=
   | YInit, _ => False
   | YNone, (PNone | PRecv true | PPubAck _ | PPubSave _ | PPubRec _ | PRelLookup _ | PRelCb _ _ _
            | PRelComp _ _ | PRelDel _) => False
-  | YNone, PPubCb q => after_cb_exp q = YNone
+  | YNone, PPubCb _ => False
   | YNone, _ => True
   | YPub q, _ =>
-    (exists d m id, q = Publish d m id /\ after_cb_exp q <> YNone) /\
+    (exists d m id, q = Publish d m id) /\
     (p = PPubCb q \/
      match after_cb_exp q with
      | YAck id => p = PPubAck id
      | YSave q' => p = PPubSave q'
-     | _ => False
+     | _ => p = PRecv false
      end)
   | YAck id, PPubAck id' => id = id'
   | YSave q, PPubSave q' => q = q'
@@ -273,7 +273,7 @@ Ltac ack_fin :=
            end; cbn [N.eqb Pos.eqb];
     first [ exact I | reflexivity | assumption | (split; [reflexivity|split; reflexivity]) | (split; reflexivity)
           | (apply N.eqb_eq; assumption)
-          | (split; [do 3 eexists; split; [reflexivity|unfold after_cb_exp; repeat match goal with E : (_ =? _) = _ |- _ => rewrite E end; discriminate]
+          | (split; [do 3 eexists; reflexivity
                     | first [left; reflexivity | right; reflexivity]]) ] ].
 
 Lemma ack_sim s e s' y : InvCtl s -> InvOwed s -> yrel y (k_ppc (k s)) -> step s e = Some s' ->
@@ -297,8 +297,8 @@ Proof.
   all: try solve [eexists; split; [reflexivity|first [exact HR | exact I]]].
   (* y = YPub q: make q and the disjunction explicit *)
   all: try (match type of HR with (exists _, _) /\ _ =>
-         let d0 := fresh "d" in let m0 := fresh "m" in let i0 := fresh "i" in let Hq := fresh "Hq" in
-         destruct HR as [(d0 & m0 & i0 & -> & Hq) HR]; unfold after_cb_exp in HR, Hq;
+         let d0 := fresh "d" in let m0 := fresh "m" in let i0 := fresh "i" in
+         destruct HR as [(d0 & m0 & i0 & ->) HR]; unfold after_cb_exp in HR;
          destruct (m_qos m0 =? 1) eqn:?; [|destruct (m_qos m0 =? 2) eqn:?];
          destruct HR as [HR|HR]; try discriminate HR; try contradiction end).
   all: repeat match goal with
@@ -306,6 +306,7 @@ Proof.
        | X : PPubCb _ = PPubCb _ |- _ => injection X as ?; subst
        | X : PPubAck _ = PPubAck _ |- _ => injection X as ?; subst
        | X : PPubSave _ = PPubSave _ |- _ => injection X as ?; subst
+       | X : PRecv _ = PRecv _ |- _ => injection X as ?; subst
        | X : Publish _ _ _ = Publish _ _ _ |- _ => injection X as ? ? ?; subst
        end; subst.
   all: try solve [exfalso; congruence].
@@ -316,6 +317,7 @@ Proof.
   all: try solve [unfold after_cb_exp in HR; repeat match goal with E : m_qos _ = _ |- _ => rewrite E in HR end;
                   cbn in HR; discriminate HR].
   all: try solve [exfalso; repeat match goal with E : m_qos _ = _ |- _ => rewrite E in * end; discriminate].
+
 Qed.
 
 Lemma scan_ack_gen es : forall pre s0 s y,
